@@ -29,6 +29,14 @@ impl Key {
         if ident_repr.starts_with("r#") {
             return None;
         }
+        // only text that looks like an identifier is handed to the Rust lexer: inside rustc it reports errors of its own
+        // on anything else (`it's`, an em space), and candidate names are cut out of arbitrary text (`1 < 5 and it's <b>`).
+        if !ident_repr
+            .chars()
+            .all(|c| c == '_' || c.is_alphanumeric())
+        {
+            return None;
+        }
         let ident = syn::parse_str::<syn::Ident>(&ident_repr).ok()?;
         Some(Key {
             name: Rc::from(name),
